@@ -2,7 +2,7 @@ import SuxModel.EF.LemmasProps
 /-!
 # C04 — Elias–Fano `index_of` / `succ` / `pred` agree with their order-theoretic definitions
 
-For every input `Input xs u` (non-decreasing `xs`, all `≤ u < 2^64`, upper-bits length a `usize`),
+For every input `Input xs u` (non-decreasing `xs`, all `≤ u < 2^64`, `n + 2·max n 1 < 2^64`),
 every state `s` produced by the sequential builder (hence, by C03 T-B, by any builder) and EVERY
 query `q : Nat` — below the first element, between elements, equal to elements, above the last
 element, above `u`, even above `usize::MAX`:
@@ -247,7 +247,7 @@ theorem ef_dict_no_oob (h : Input xs u) (hs : build xs.length u xs = .ok s) (q :
 /-! ## non-vacuity: concrete inputs with duplicates, an empty bucket, queries above `u` -/
 
 example : Input [0, 2, 2, 8, 10] 10 :=
-  ⟨by decide, by decide, by decide, fits_of_small _ _ (by decide)⟩
+  ⟨by decide, by decide, by decide, by decide⟩
 
 example : ∃ y, y ∈ [0, 2, 2, 8, 10] ∧ leq true 1000 y := ⟨10, by decide, by decide⟩
 
@@ -256,6 +256,13 @@ example : ∃ y, y ∈ [0, 2, 2, 8, 10] ∧ geq false 3 y := ⟨8, by decide, by
 /-- the theorems apply to `pred(1000)` on the documentation example (D7) -/
 example (s : St) (hs : build 5 10 [0, 2, 2, 8, 10] = .ok s) : ∃ r, pred s 1000 = .ok r :=
   ef_pred_total (xs := [0, 2, 2, 8, 10])
-    ⟨by decide, by decide, by decide, fits_of_small _ _ (by decide)⟩ hs 1000
+    ⟨by decide, by decide, by decide, by decide⟩ hs 1000
+
+/-- … and to every query on the empty dictionary with the largest universe -/
+example (s : St) (hs : build 0 (2 ^ 64 - 1) [] = .ok s) (q : Nat) :
+    indexOf s q = .ok none ∧ pred s q = .ok none := by
+  have h : Input [] (2 ^ 64 - 1) := ⟨by decide, by simp, by decide, by decide⟩
+  exact ⟨(ef_index_of_none_iff (xs := []) h hs q).2 (by simp),
+    (ef_pred_none_iff (xs := []) h hs q).2 (by simp)⟩
 
 end Sux.EF
